@@ -67,6 +67,14 @@ func H_C12_Lattice() {
 	vsym.Assert(sum.Eq(new(saferith.Int).Add(a, b, -1)) == 1, "Dec(a (+) b) = a + b")
 	prod, _ := sk.Dec(ca.Clone().Mul(pk, b))
 	vsym.Assert(prod.Eq(new(saferith.Int).Mul(a, b, -1)) == 1, "Dec(b (*) a) = a * b")
+	// scalar multiplication on the lattice of scalars, including 0 (the product must be an encryption of 0, not the
+	// unchanged ciphertext) and negative scalars
+	for _, k := range []*saferith.Int{c12Int(0), c12Int(1), c12Int(-1), c12Int(2), c12Int(-3), c12Int(1 << 40)} {
+		for _, m := range []*saferith.Int{c12Int(0), c12Int(1), c12Int(-7), c12Int(12345)} {
+			got, err := sk.Dec(pk.EncWithNonce(m, nonce).Mul(pk, k))
+			vsym.Assert(err == nil && got.Eq(new(saferith.Int).Mul(k, m, -1)) == 1, "Dec(k (*) Enc(m)) = k*m for k, m on the lattice (incl. k = 0)")
+		}
+	}
 	// wrap-around at the boundary: (N-1)/2 + 1 decrypts to -(N-1)/2
 	wrap, _ := sk.Dec(pk.EncWithNonce(halfI, nonce).Add(pk, pk.EncWithNonce(c12Int(1), nonce)))
 	vsym.Assert(wrap.Eq(negHalf) == 1, "sum just out of range wraps symmetrically")
